@@ -132,7 +132,14 @@ pub fn judge_owned(x: &Vec<u8>, st: &mut Stats) -> Verdict {
                 // ... also onto a header that already carries the SAME addresses under another spelling (the canonical line)
                 let canonical_text = h.addresses.to_string();
                 let same_addresses = ppp::v1::Header::new(canonical_text.as_str(), h.addresses).to_owned();
-                for target in [ppp::v1::Header::new("PROXY UNKNOWN\r\n", ppp::v1::Addresses::Unknown).to_owned(), ppp::v1::Header::new(long_text.as_str(), ppp::v1::Addresses::Unknown).to_owned(), o.clone(), same_addresses] {
+                // ... and onto a header of exactly the same length whose last field differs in its last character
+                let mut same_len: Vec<u8> = h.header.as_bytes().to_vec();
+                if same_len.len() >= 3 {
+                    let at = same_len.len() - 3;
+                    same_len[at] = if same_len[at] == b'1' { b'2' } else { b'1' };
+                }
+                let same_len_target = std::str::from_utf8(&same_len).ok().and_then(|s| ppp::v1::Header::try_from(s).ok()).map(|p| p.to_owned()).unwrap_or_else(|| o.clone());
+                for target in [ppp::v1::Header::new("PROXY UNKNOWN\r\n", ppp::v1::Addresses::Unknown).to_owned(), ppp::v1::Header::new(long_text.as_str(), ppp::v1::Addresses::Unknown).to_owned(), o.clone(), same_addresses, same_len_target] {
                     let mut t2: ppp::v1::Header<'_> = target;
                     t2.clone_from(h);
                     if !(t2 == *h && *h == t2) || t2.header != h.header || t2.addresses != h.addresses || t2.to_string() != h.to_string() {
@@ -203,6 +210,28 @@ pub fn judge_owned(x: &Vec<u8>, st: &mut Stats) -> Verdict {
                     if let Ok(sh) = ppp::v2::Header::try_from(&short_bytes[..]) {
                         targets.push(sh.to_owned());
                     }
+                    // ... and onto owned headers of exactly the SAME length that differ in the command, in the transport, in one
+                    // payload byte (a slot that held another connection's header of the same shape)
+                    let hb = h.as_bytes().to_vec();
+                    let mut variants: Vec<Vec<u8>> = Vec::new();
+                    let mut v = hb.clone();
+                    v[12] ^= 0x01;
+                    variants.push(v);
+                    let mut v = hb.clone();
+                    v[13] = (v[13] & 0xf0) | ((v[13] & 0x0f) + 1) % 3;
+                    variants.push(v);
+                    if hb.len() > 16 {
+                        let mut v = hb.clone();
+                        let at = 16 + (x.digest() as usize % (hb.len() - 16));
+                        v[at] = v[at].wrapping_add(1);
+                        variants.push(v);
+                        let mut v = hb.clone();
+                        let last = v.len() - 1;
+                        v[last] ^= 0xff;
+                        variants.push(v);
+                    }
+                    let parsed_variants: Vec<ppp::v2::Header<'static>> = variants.iter().filter_map(|v| ppp::v2::Header::try_from(&v[..]).ok().map(|p| p.to_owned())).collect();
+                    targets.extend(parsed_variants);
                     for mut t2 in targets {
                         t2.clone_from(h);
                         let same = t2 == *h && *h == t2 && t2.as_bytes() == h.as_bytes() && t2.len() == h.len() && t2.length() == h.length() && t2.tlv_bytes() == h.tlv_bytes() && t2.address_bytes() == h.address_bytes();
